@@ -144,12 +144,14 @@ func (ev *Ev) ident(name string) *Val {
 		}
 	}
 	if ev.locals && ev.fr != nil && ev.fr.Fn != nil {
-		if v, ok := ev.fr.envTop[name]; ok {
+		if v, ok := ev.fr.envTop[name]; ok && !ev.fr.midEval {
 			return v
 		}
-		if v, ok := ev.fr.Params[name]; ok {
+		if v, ok := ev.fr.Params[name]; ok && !ev.fr.midEval {
 			return v
 		}
+		// (inside the body - loop invariants, at-call assertions - a parameter name denotes the CURRENT value of the
+		// variable; in requires/ensures it denotes the entry value)
 		// local cells by source name (latest declared wins when shadowed: prefer the one with a value in the state);
 		// "x#n" selects the n-th variable named x in source order
 		var found *Val
@@ -178,6 +180,12 @@ func (ev *Ev) ident(name string) *Val {
 		}
 		if found != nil {
 			return found
+		}
+		if v, ok := ev.fr.envTop[name]; ok {
+			return v
+		}
+		if v, ok := ev.fr.Params[name]; ok {
+			return v
 		}
 		// free variables of closures
 		if ev.fr.Closure != nil {
